@@ -546,9 +546,18 @@ func (t *MaryTransaction) MarshalCBOR() ([]byte, error) {
 		return cborData, nil
 	}
 	// Otherwise, construct and encode
+	// Embed the stored component bytes when present so that a non-canonical
+	// body / witness set is reproduced byte for byte
+	var body, witnessSet any = t.Body, t.WitnessSet
+	if b := t.Body.Cbor(); len(b) > 0 {
+		body = cbor.RawMessage(b)
+	}
+	if w := t.WitnessSet.Cbor(); len(w) > 0 {
+		witnessSet = cbor.RawMessage(w)
+	}
 	tmpObj := []any{
-		t.Body,
-		t.WitnessSet,
+		body,
+		witnessSet,
 	}
 	if t.auxData != nil && len(t.auxData.Cbor()) > 0 {
 		tmpObj = append(tmpObj, cbor.RawMessage(t.auxData.Cbor()))
